@@ -1,7 +1,21 @@
 import TmVerif.Model.Proto
 import TmVerif.Model.IntSet
+import TmVerif.Model.SetClosure
+/-!
+Line protocol for C25:
+
+  merge|inter ia a ib b            → `inv set`
+  closure <ops> <edges> <inits>    → `ok <inv:set;…>` | `error <offending complement nodes, sorted>` | `timeout`
+                                     (ops: 0 union / 1 intersection / 2 complement per node, `-` for no node;
+                                      edges: rows of successors; inits: the slices given to `Add`)
+  judge <answer…> :: <case…>       → `holds` | `violates: why` — for `closure` decided by the specification:
+                                     error ⇔ a complement node reaches itself (verified Warshall closure of C26);
+                                     otherwise the answer must satisfy every equation and denote, node by node, the
+                                     stratified least solution (the mirror's result, `C25_closure_solution/_least`),
+                                     compared on every mentioned element, its neighbours and one unmentioned point.
+-/
 namespace TmVerif.DriverC25
-open TmVerif.Proto TmVerif.IntSet
+open TmVerif.Proto TmVerif.IntSet TmVerif.SetClosure TmVerif.Graph
 
 def showSet (s : IntSet) : String := s!"{showBool s.inverse} {showInts s.set}"
 
@@ -13,6 +27,78 @@ def judgeOp (isMerge : Bool) (a b r : IntSet) : Option Int :=
   let pts := (a.set ++ b.set ++ r.set).flatMap fun v => [v - 1, v, v + 1]
   (0 :: pts).find? fun v =>
     memB r v != (if isMerge then memB a v || memB b v else memB a v && memB b v)
+
+/-! ### set-equation closure -/
+
+def parseOp? (n : Nat) : Option Op :=
+  if n == 0 then some .union else if n == 1 then some .inter else if n == 2 then some .compl else none
+
+def parseSys (ops edges inits : String) : Option Sys := do
+  let ops ← parseNats ops
+  let ops ← ops.mapM parseOp?
+  let edges ← parseNatss edges
+  let inits ← parseIntss inits
+  if ops.length != edges.length || ops.length != inits.length then none
+  else some ((ops.zip (edges.zip inits)).map fun x => ⟨x.1, x.2.1, x.2.2⟩)
+
+def showSets (l : List IntSet) : String :=
+  if l.isEmpty then "_" else ";".intercalate (l.map fun s => s!"{showBool s.inverse}:{showInts s.set}")
+
+def parseSet? (s : String) : Option IntSet :=
+  match s.splitOn ":" with
+  | [i, l] => do let i ← parseBool? i; let l ← parseInts l; some ⟨i, l⟩
+  | _ => none
+
+def parseSets (s : String) : Option (List IntSet) :=
+  if s == "_" then some [] else (s.splitOn ";").mapM parseSet?
+
+def dedupSorted (l : List Nat) : List Nat :=
+  (l.mergeSort (fun a b => a ≤ b)).eraseDups
+
+def showSt (s : St) : String :=
+  if s.timeout then "timeout"
+  else if !s.err.isEmpty then s!"error {showNats (dedupSorted s.err)}"
+  else s!"ok {showSets s.sets}"
+
+/-- some complement node reaches itself (decided with the verified closure of C26) -/
+def complOnCycle (sys : Sys) : Bool :=
+  let r := (Matrix.ofGraph (graphOf sys)).closure
+  (List.range sys.length).any fun v => opOf sys v == .compl && r.hasEdge v v
+
+/-- the equation of node `v` at the point `x` under the assignment `a` -/
+def eqAtB (sys : Sys) (a : List IntSet) (v : Nat) (x : Int) : Bool :=
+  let get := fun w => memB (a[w]?.getD ⟨false, []⟩) x
+  match opOf sys v with
+  | .union => get v == ((initOf sys v).contains x || (edgesOf sys v).any get)
+  | .inter => get v == (edgesOf sys v).all get
+  | .compl => get v == (edgesOf sys v).all fun w => !get w
+
+def judgeClosure (sys : Sys) (ans : List String) : String :=
+  if !SetClosure.wfB sys then "holds"
+  else
+    let cyc := complOnCycle sys
+    match ans with
+    | ["error", _] => if cyc then "holds" else "violates: error reported although no complement node reaches itself"
+    | ["ok", sets] =>
+      if cyc then "violates: no error although a complement node depends on itself"
+      else match parseSets sets with
+        | none => "violates: malformed answer"
+        | some a =>
+          let m := compute sys
+          if a.length != sys.length then "violates: wrong number of sets"
+          else if m.timeout || !m.err.isEmpty then "holds"
+          else
+            let pts := ((sys.flatMap (·.init)) ++ a.flatMap (·.set)).flatMap fun v => [v - 1, v, v + 1]
+            let pts := 0 :: pts
+            let vs := List.range sys.length
+            match vs.findSome? fun v => (pts.find? fun x => !eqAtB sys a v x).map fun x => (v, x) with
+            | some (v, x) => s!"violates: the equation of node {v} fails at element {x}"
+            | none =>
+              match vs.findSome? fun v => (pts.find? fun x =>
+                  memB (a[v]?.getD ⟨false, []⟩) x != memB (m.get v) x).map fun x => (v, x) with
+              | some (v, x) => s!"violates: node {v} differs from the least solution at element {x}"
+              | none => "holds"
+    | _ => "violates: panics or malformed answer"
 
 /-- ops: `merge ia a ib b`, `inter ia a ib b` → `inv set`;
 `judge inv set :: op ia a ib b` → does the implementation's answer denote the right set? -/
@@ -32,6 +118,15 @@ def handle (args : List String) : Option String :=
     match judgeOp (op == "merge") ⟨ia, a⟩ ⟨ib, b⟩ ⟨ir, r⟩ with
     | some v => some s!"violates: element {v} has the wrong membership in the result"
     | none => some "holds"
+  | ["closure", ops, edges, inits] => do
+    let sys ← parseSys ops edges inits
+    some (showSt (compute sys))
+  | ["judge", a, b, "::", "closure", ops, edges, inits] => do
+    let sys ← parseSys ops edges inits
+    some (judgeClosure sys [a, b])
+  | ["judge", a, "::", "closure", ops, edges, inits] => do
+    let sys ← parseSys ops edges inits
+    some (judgeClosure sys [a])
   | _ => none
 
 end TmVerif.DriverC25
